@@ -217,22 +217,22 @@ theorem attempt2_panic' {ε ρ ε' σ₁ σ₂ α : Type} (m : String) :
     (Exec.attempt2 (.panic m : Res (ε' × (σ₁ × σ₂)) (σ₁ × σ₂ × α)) : Exec ε ρ _) = .panic m := rfl
 
 /-- outcome of `process_packet` (no `Err`; the scratch buffer is untouched, the caller's buffer is decrypted in place) -/
-def CliPktOut {ε : Type} (out : List Nat) (m : Res Empty (Option Bytes × Netcode.NetcodeClient))
+def CliPktOutL {ε : Type} (L : Nat) (out : List Nat) (m : Res Empty (Option Bytes × Netcode.NetcodeClient))
     (g : Res ε (SNetcodeClient × List Nat × Option (List Nat))) : Prop :=
   match m with
-  | .ok (p, c') => ∃ buf', g = .ok (reprNC out c', buf', p.map toNats)
+  | .ok (p, c') => ∃ buf', buf'.length = L ∧ g = .ok (reprNC out c', buf', p.map toNats)
   | .err e => nomatch e
   | .panic _ => ∃ msg, g = .panic msg
 
 set_option maxRecDepth 10000 in
-theorem nc_process_packet_eq {ε : Type} (a : AEAD) (hl : a.Laws) (out : List Nat) (c : Netcode.NetcodeClient) (buffer : Bytes)
+theorem nc_process_packet_eqL {ε : Type} (a : AEAD) (hl : a.Laws) (out : List Nat) (c : Netcode.NetcodeClient) (buffer : Bytes)
     (hbl : buffer.length + 16 < 2 ^ 64) :
-    CliPktOut out (c.processPacket a buffer)
+    CliPktOutL buffer.length out (c.processPacket a buffer)
       (@Src.renetcode.client.NetcodeClient.process_packet (aeadOf a) ε (reprNC out c) (toNats buffer)) := by
   unfold Src.renetcode.client.NetcodeClient.process_packet Netcode.NetcodeClient.processPacket
-  have hdec0 := packet_decode_eq a hl buffer hbl c.connectToken.protocolId (some c.connectToken.serverToClientKey)
+  have hdec0 := packet_decode_eqL a hl buffer hbl c.connectToken.protocolId (some c.connectToken.serverToClientKey)
     (some c.replayProtection)
-  have hdec : DecOut (Netcode.Packet.decode a buffer c.connectToken.protocolId (some c.connectToken.serverToClientKey)
+  have hdec : DecOutL buffer.length (Netcode.Packet.decode a buffer c.connectToken.protocolId (some c.connectToken.serverToClientKey)
         (some c.replayProtection))
       (@Src.renetcode.packet.Packet.decode (aeadOf a) (toNats buffer) (reprNC out c).connect_token.protocol_id
         (some (reprNC out c).connect_token.server_to_client_key) (some (reprNC out c).replay_protection)) := hdec0
@@ -245,23 +245,23 @@ theorem nc_process_packet_eq {ε : Type} (a : AEAD) (hl : a.Laws) (out : List Na
   simp only [Exec.bind_eq, Exec.pure_eq, Option.getD_some]
   cases r with
   | panic m =>
-    simp only [DecOut] at hdec
+    simp only [DecOutL] at hdec
     obtain ⟨msg, hg⟩ := hdec
     rw [hg, attempt2_panic', Exec.bind_panic']
-    simp only [Exec.run_panic, CliPktOut]; exact ⟨_, rfl⟩
+    simp only [Exec.run_panic, CliPktOutL]; exact ⟨_, rfl⟩
   | err e =>
-    simp only [DecOut] at hdec
-    obtain ⟨buf', hg⟩ := hdec
+    simp only [DecOutL] at hdec
+    obtain ⟨buf', hbl', hg⟩ := hdec
     rw [hg, attempt2_err', Exec.bind_val']
     rw [Exec.bind_skip _ _ (reprRP w') ?h1]
     case h1 => rfl
     rw [Exec.bind_ret']
-    simp only [Exec.run_ret, CliPktOut]
-    exact ⟨buf', rfl⟩
+    simp only [Exec.run_ret, CliPktOutL]
+    exact ⟨buf', hbl', rfl⟩
   | ok v =>
     obtain ⟨sq, packet⟩ := v
-    simp only [DecOut] at hdec
-    obtain ⟨buf', hg⟩ := hdec
+    simp only [DecOutL] at hdec
+    obtain ⟨buf', hbl', hg⟩ := hdec
     rw [hg, attempt2_ok', Exec.bind_val']
     rw [Exec.bind_skip _ _ (reprRP w') ?h1]
     case h1 => rfl
@@ -272,8 +272,28 @@ theorem nc_process_packet_eq {ε : Type} (a : AEAD) (hl : a.Laws) (out : List Na
     rw [hs1]
     cases packet <;> cases hst : c.state <;> simp only [reprNP, reprCSt] <;>
       first
-      | (rw [Exec.bind_val']; simp only [Exec.run_val, CliPktOut]; exact ⟨buf', rfl⟩)
-      | (rw [Exec.bind_ret']; simp only [Exec.run_ret, CliPktOut]; exact ⟨buf', rfl⟩)
+      | (rw [Exec.bind_val']; simp only [Exec.run_val, CliPktOutL]; exact ⟨buf', hbl', rfl⟩)
+      | (rw [Exec.bind_ret']; simp only [Exec.run_ret, CliPktOutL]; exact ⟨buf', hbl', rfl⟩)
+
+/-- `CliPktOutL` without the buffer's length -/
+def CliPktOut {ε : Type} (out : List Nat) (m : Res Empty (Option Bytes × Netcode.NetcodeClient))
+    (g : Res ε (SNetcodeClient × List Nat × Option (List Nat))) : Prop :=
+  match m with
+  | .ok (p, c') => ∃ buf', g = .ok (reprNC out c', buf', p.map toNats)
+  | .err e => nomatch e
+  | .panic _ => ∃ msg, g = .panic msg
+
+theorem nc_process_packet_eq {ε : Type} (a : AEAD) (hl : a.Laws) (out : List Nat) (c : Netcode.NetcodeClient) (buffer : Bytes)
+    (hbl : buffer.length + 16 < 2 ^ 64) :
+    CliPktOut out (c.processPacket a buffer)
+      (@Src.renetcode.client.NetcodeClient.process_packet (aeadOf a) ε (reprNC out c) (toNats buffer)) := by
+  have h := nc_process_packet_eqL (ε := ε) a hl out c buffer hbl
+  unfold CliPktOut
+  unfold CliPktOutL at h
+  cases hm : c.processPacket a buffer with
+  | ok v => obtain ⟨p, c'⟩ := v; rw [hm] at h; obtain ⟨b, _, hg⟩ := h; exact ⟨b, hg⟩
+  | err e => exact nomatch e
+  | panic x => rw [hm] at h; exact h
 
 /-! ### `update_internal_state` -/
 
